@@ -15,6 +15,7 @@ in lock-step with a one-variable model:             C08.reported  C08.decodable 
 import codecs
 import itertools
 import re
+import xml.dom
 
 import cssutils
 
@@ -882,6 +883,85 @@ def _run_sequence(res, case):
         res.violation('C08.noraise', f'{guard.crash_site(e)}|sequence', dict(case, failed_step=step), 'no exception', repr(e))
 
 
+# ---------------- every codec name Python knows, assigned to a sheet: refused, or reported and usable
+
+
+def _codec_names():
+    import encodings.aliases
+    import pkgutil
+
+    names = set(encodings.aliases.aliases.values()) | {m.name for m in pkgutil.iter_modules(encodings.__path__)}
+    return sorted(n for n in names if n not in ('aliases', 'mbcs', 'oem'))
+
+
+CODEC_HOW = ['sheet.encoding=', 'rule.encoding=', '@charset in text', '@charset in bytes', 'encoding argument']
+
+
+def _run_codec(res, case):
+    name, how = case['name'], case['how']
+    guard.pristine()
+    res.evaluations += 1
+    res.transitions += 1
+    res.clauses['C08.decodable.codec-table'] += 1
+    parser = cssutils.CSSParser(fetcher=_nofetch)
+    accepted = None
+    try:
+        with guard.watchdog(WD):
+            if how in ('sheet.encoding=', 'rule.encoding='):
+                sheet = parser.parseString('@charset "ascii";\na { x: "y" }', href=TOP_HREF)
+                cssutils.log.raiseExceptions = True
+                before = sheet.cssText
+                try:
+                    if how == 'sheet.encoding=':
+                        sheet.encoding = name
+                    else:
+                        sheet.cssRules[0].encoding = name
+                    accepted = True
+                except (xml.dom.DOMException, LookupError):
+                    accepted = False
+            elif how == '@charset in text':
+                sheet = parser.parseString('@charset "%s";\na { x: "y" }' % name, href=TOP_HREF)
+            else:
+                # bytes really written in that encoding (a name that cannot write them is no case; one whose bytes do not start
+                # with an ASCII '@charset "' cannot announce itself).  A refusal of the name (LookupError) or of the bytes
+                # (UnicodeError) is an answer the byte entry points may give.
+                src = ('@charset "%s";\na { x: "y" }' % name) if how == '@charset in bytes' else 'a { x: "y" }'
+                try:
+                    raw = src.encode(name)
+                except Exception:
+                    res.counters['codec-table.cannot-encode'] += 1
+                    return
+                if how == '@charset in bytes' and not raw.startswith(b'@charset "'):
+                    res.counters['codec-table.not-ascii-compatible'] += 1
+                    return
+                try:
+                    sheet = parser.parseString(raw, href=TOP_HREF) if how == '@charset in bytes' else parser.parseString(raw, encoding=name, href=TOP_HREF)
+                except (LookupError, UnicodeError):
+                    res.counters['codec-table.bytes-refused'] += 1
+                    return
+            cssutils.log.raiseExceptions = True
+            enc = sheet.encoding
+            data = sheet.cssText  # never a reason to raise
+            if accepted is False and data != before:
+                res.violation('C08.reported', f'codec-table|refused-name-changed-the-sheet|{how}', case, before, data)
+                return
+            text = data.decode(enc)
+            styles = [r for r in cssutils.CSSParser(fetcher=_nofetch).parseString(data, encoding=enc, href=TOP_HREF).cssRules if r.type == R.STYLE_RULE]
+    except guard.Timeout:
+        res.violation('C08.noraise', f'timeout|codec-table|{how}', case, 'an answer', 'timeout')
+        return
+    except Exception as e:
+        res.violation('C08.decodable', f'codec-table|{guard.crash_site(e)}|{how}', case, 'bytes decodable in the reported encoding', repr(e)[:200])
+        return
+    finally:
+        cssutils.log.raiseExceptions = True
+    res.validated += 1
+    res.nontrivial += 1
+    res.outcomes.add(h64(['codec', how, accepted, ref.norm(enc) == ref.norm(name)]))
+    if 'x: "y"' not in text or len(styles) != 1:
+        res.violation('C08.decodable', f'codec-table|content-lost|{how}', case, 'a { x: "y" } readable in ' + str(enc), text[:80])
+
+
 # ----------------------------------------------------------------------------------------
 
 
@@ -916,6 +996,7 @@ def plan(tier):
                 shards.append(['ladder', override, top, ri])
     shards.append(['late'])
     shards.append(['bomfirst'])
+    shards.append(['codecs'])
     for pos in POSITIONS:
         for target in _targets(tier):
             shards.append(['bytes', pos, target])
@@ -942,6 +1023,11 @@ def run_shard(shard, tier, seed):
                 for child in LATE_CHILD:
                     _run_late(res, {'kind': 'late', 'top': top, 'how': how, 'child': child})
         res.sample({'kind': 'late', 'top': LATE_TOPS[1], 'how': LATE_HOW[1], 'child': LATE_CHILD[0]})
+    elif kind == 'codecs':
+        for name in _codec_names():
+            for how in CODEC_HOW:
+                _run_codec(res, {'kind': 'codec', 'name': name, 'how': how})
+        res.sample({'kind': 'codec', 'name': 'idna', 'how': CODEC_HOW[0]})
     elif kind == 'bomfirst':
         for case in _bomfirst_cases():
             _run_bomfirst(res, case)
@@ -979,6 +1065,8 @@ def replay(case, tier, seed):
         _run_late(res, case)
     elif case['kind'] == 'bomfirst':
         _run_bomfirst(res, case)
+    elif case['kind'] == 'codec':
+        _run_codec(res, case)
     elif case['kind'] == 'chain':
         _run_chain(res, case)
     elif case['kind'] == 'bytes':
